@@ -179,7 +179,26 @@ func (w *WalkEnv) get(key string) uint32 {
 		}
 	}
 	if strings.HasPrefix(key, "reflect.ValueOf(") {
-		return validKinds
+		// the ValueOf expression itself (its closing parenthesis ends the key), not something derived from it:
+		// reflect.ValueOf(p).Elem() of a nil pointer is the zero Value
+		depth := 0
+		for i := len("reflect.ValueOf"); i < len(key); i++ {
+			switch key[i] {
+			case '(':
+				depth++
+			case ')':
+				depth--
+			}
+			if depth == 0 {
+				if i == len(key)-1 {
+					return validKinds
+				}
+				break
+			}
+		}
+		if !strings.HasSuffix(key, ".Elem()") {
+			return validKinds
+		}
 	}
 	return allKinds
 }
